@@ -27,6 +27,16 @@ C = {
              text='The greatest-per-group semantics (LastOf with SegsLess) is part of the spec; searches with ">" over universes whose names sort below "/" are validated. Where the property\'s precondition (one ">" position in all unfolded forms) is false the line is counted, not compared.', ref='5 (C09)'),
  'C10': dict(tech='TLC model checking of MC_Search[algebra]: AlgebraHolds invariant for the five rewrite rules on the model + replay of (search, derived searches) + TLC trace validation (AlgebraClauses)',
              text='The derived searches are produced by the specification (never by the harness); the algebra is an invariant on the model and a clause on the observed result sets.', ref='5 (C10)'),
+ 'C11': dict(tech='TLC model checking of MC_Search[finders] over Store.tla (FindersAgree, JunkChangesNothing; each finder modelled by its own mechanism, routing and constants extracted) + replay on materialised trees (list / local / server / all, clean and with junk) + TLC trace validation',
+             text='FindInPaths (glob + re-resolution + type filter), FindInList (string glob) and FindInAll (routing, constants finders) are separate operators; that they agree on type-complete, path-backed searches and that junk changes nothing are invariants checked by TLC; every search is run through the four real finders on trees materialised from the same universes and validated.', ref='5 (C11)'),
+ 'C12': dict(tech='TLC model checking of MC_Store[sidreads] (children / siblings / leaf / parent-closure theorems) + replay of exists / children / siblings and of exists / find_one / as_sid on four finders + TLC trace validation',
+             text='exists / children / siblings are defined through FindInAll as the code does; their set-theoretic meaning is an invariant of the model; the implementation is validated for every Sid of the universe (existing or not) and for every finder; reads after creates are part of the C15 behaviours.', ref='5 (C12)'),
+ 'C15': dict(tech='TLC model checking of StoreDyn (all Writer behaviours to a depth; ExistsIff, FailChangesNothing, WriteIsLocal ...) + TLC -simulate behaviours + replay of every behaviour on a scratch tree + stateful TLC trace validation (StoreTrace: model state advanced by the spec action and compared with listing / sidecars / reads, incl. a new Getter and a new process)',
+             text='The store is a state machine (tree, sidecars); create / update / set are actions with their failure branches; the guarantees are invariants and action properties over all histories; behaviours generated by TLC are replayed with the real WriteToPaths and the full projected state is validated after every call.', ref='5 (C15)'),
+ 'C16': dict(tech='TLC-generated family MC_Store[getter] (searches x attribute subsets x encoders) + replay of GetFromPaths / GetFromAll next to FindInPaths on seeded trees + TLC trace validation (GetterClauses)',
+             text='The expected record of every found Sid is computed by the spec from the seeded data (SideDataOf) and the encoder; order is compared position-wise with find() of the same process.', ref='5 (C16)'),
+ 'C18': dict(tech='TLC model checking of VersionDyn (publish behaviours from every initial version set; LastIsGreatest, NextIsSuccessor, NewIsFresh, NewIsSuccessorOfLast, OtherFieldsKept, Monotone) + -simulate sequences of 8 publishes + replay + stateful TLC trace validation (VersionTrace)',
+             text='get_last / get_next / get_new are operators over the tree state following the code path (FindInAll with ">", the configured NextGetter); the workflow guarantees are invariants over all publish histories; every behaviour is replayed with the real API and validated step by step.', ref='5 (C18)'),
  'C19': dict(tech='TLC model checking of MC_Extrapolate (ExtrapolationOK, ReplaceScoped over a grammar of configurations) + replay into extrapolate_templates / pattern_replacing + TLC trace validation',
              text='The declarative statement of the property is checked against the operational Extrapolate on every configuration of the grammar; the real functions are then validated on the same configurations and on the shipped one.', ref='5 (C19)'),
 }
